@@ -352,6 +352,13 @@ func IsBoolNode(n Node) bool {
 //@ atcall validateNode assert [C04] chain-keeps-context-binary: is[*BinaryNode](node) && arg_node != nil && arg_node == node.Next() ==> arg_depth == depth && arg_inSubscript == inSubscript
 //@ atcall validateNode assert [C04] chain-keeps-context-other: !is[*UnaryNode](node) && !is[*BinaryNode](node) && !is[*RegexNode](node) && !is[*ArrayIndexNode](node) ==> arg_depth == depth && arg_inSubscript == inSubscript
 
+// negated flips the sign of a number literal's text: exactly one leading "-" goes or comes
+//@ func negated
+//@ props C03 C13
+//@ pure
+//@ ensures [C03 C13] one-sign-removed: strings.HasPrefix(num, "-") ==> "-"+r0 == num
+//@ ensures [C03 C13] one-sign-added: !strings.HasPrefix(num, "-") ==> r0 == "-"+num
+
 //@ func New
 //@ props C04
 //@ propagates errors
